@@ -1035,6 +1035,9 @@ def instrument(rec, patches):
                 mk = self.flumine.markets.markets[order_package.market_id]
                 book = proj_book(mk.market_book)
                 err = None
+                # the dates the simulated exchange writes into the responses of this execution (C07)
+                ncan = {id(o): len(o.responses.cancel_responses) for o in order_package._orders}
+                hadp = {id(o): o.responses.place_response for o in order_package._orders}
                 try:
                     orig(self, order_package, http_session)
                 except Exception as e:  # noqa
@@ -1046,8 +1049,18 @@ def instrument(rec, patches):
                     for l in rec.orders:
                         if l not in known and ".r" in l:
                             rlab[l.rsplit(".r", 1)[0]] = l
+                    rdates = []
+                    for o in list(order_package._orders) + [rec.orders[l] for l in rlab.values()]:
+                        for r in o.responses.cancel_responses[ncan.get(id(o), 0):]:
+                            d = getattr(r, "cancelled_date", None)
+                            if d is not None:
+                                rdates.append(["cancelled", rec.label_order(o), ms_of(d)])
+                        pr = o.responses.place_response
+                        if pr is not None and pr is not hadp.get(id(o)) and getattr(pr, "placed_date", None) is not None:
+                            rdates.append(["placed", rec.label_order(o), ms_of(pr.placed_date)])
                     rec.step(
                         "exec",
+                        rdates=rdates,
                         kind=kind,
                         orders=labs,
                         mid=order_package.market_id,
